@@ -1131,7 +1131,7 @@ class Process(StateMachine, persistence.Savable, metaclass=ProcessStateMachineMe
         if self.has_terminated():
             return False
 
-        if self._killing is not None:
+        if self._killing is not None and not self._killing.cancelled():
             # Being killed: a pause must not supersede the pending kill
             return False
 
@@ -1285,6 +1285,11 @@ class Process(StateMachine, persistence.Savable, metaclass=ProcessStateMachineMe
         if self.has_terminated():
             # Can't kill
             return False
+
+        if self._killing is not None and self._killing.cancelled():
+            # The pending kill was withdrawn (whoever requested it cancelled the future it got back, e.g. by a time-out
+            # while waiting for it): this is a new request
+            self._killing = None
 
         if self._killing:
             # Already killing
